@@ -517,7 +517,10 @@ main(int argc, char **argv) {
   // Add all of the .h files we are explicitly including to the parser.
   for (i = 1; i < argc; ++i) {
     Filename filename = Filename::from_os_specific(argv[i]);
-    filename.make_absolute();
+    // The preprocessor looks up the canonical name of each included file in
+    // this set, so store the canonical name here as well; otherwise a file
+    // named via a symbolic link would not be recognized.
+    filename.make_canonical();
     parser._explicit_files.insert(filename);
   }
 
